@@ -4,6 +4,7 @@ package main
 
 import (
 	"fmt"
+	"math/big"
 	"net"
 	"net/netip"
 	"sort"
@@ -88,7 +89,101 @@ type cb struct{ evs []event }
 func (c *cb) OnRouteUpdate(u *proto.RouteUpdate) { c.evs = append(c.evs, event{upd: u}) }
 func (c *cb) OnRouteRemove(dst string)           { c.evs = append(c.evs, event{rem: dst}) }
 
-type nodeSpec struct{ addr, plen, ipip, vxlan, wg uint32 }
+type nodeSpec struct {
+	addr, plen, ipip, vxlan, wg uint32
+	// IPv6 side; addresses as decimal strings ("0" = none)
+	addr6        string
+	plen6        int
+	vxlan6, wg6 string
+}
+
+// ck is a CIDR of either family: address as a decimal string, prefix length.
+type ck struct {
+	v6 bool
+	a  string
+	l  int
+}
+
+func c4(a uint32, l int) ck { return ck{false, strconv.FormatUint(uint64(a), 10), l} }
+func c6(ip string, l int) ck {
+	return ck{true, new(big.Int).SetBytes(netip.MustParseAddr(ip).AsSlice()).String(), l}
+}
+func (k ck) width() int {
+	if k.v6 {
+		return 128
+	}
+	return 32
+}
+func (k ck) big() *big.Int  { b, _ := new(big.Int).SetString(k.a, 10); return b }
+func (k ck) u32() uint32    { return uint32(k.big().Uint64()) }
+func (k ck) addrTok() string {
+	if k.v6 {
+		return "v" + k.a
+	}
+	return k.a
+}
+func (k ck) tok() string { return fmt.Sprintf("%s/%d", k.addrTok(), k.l) }
+func (k ck) ipString() string {
+	if k.v6 {
+		return dec6(k.a)
+	}
+	return ipStr(k.u32())
+}
+func (k ck) prefix() netip.Prefix { return netip.MustParsePrefix(fmt.Sprintf("%s/%d", k.ipString(), k.l)) }
+func (k ck) net() cnet.IPNet {
+	_, n, err := cnet.ParseCIDR(fmt.Sprintf("%s/%d", k.ipString(), k.l))
+	if err != nil {
+		panic(err)
+	}
+	return *n
+}
+func (k ck) nth(ord int) ck {
+	return ck{k.v6, new(big.Int).Add(k.big(), big.NewInt(int64(ord))).String(), k.width()}
+}
+func (k ck) masked(l int) *big.Int {
+	return new(big.Int).Rsh(k.big(), uint(k.width()-l))
+}
+func ckLess(a, b ck) bool {
+	if a.v6 != b.v6 {
+		return !a.v6
+	}
+	if c := a.big().Cmp(b.big()); c != 0 {
+		return c < 0
+	}
+	return a.l < b.l
+}
+func parseCk(a, l string) ck {
+	if strings.HasPrefix(a, "v") {
+		return ck{true, a[1:], atoi(l)}
+	}
+	return ck{false, a, atoi(l)}
+}
+
+// dec6 renders a decimal 128-bit number as an IPv6 address string.
+func dec6(d string) string {
+	b, _ := new(big.Int).SetString(d, 10)
+	var buf [16]byte
+	b.FillBytes(buf[:])
+	return netip.AddrFrom16(buf).String()
+}
+func dec6OrEmpty(d string) string {
+	if d == "0" || d == "" {
+		return ""
+	}
+	return dec6(d)
+}
+
+// numOfIP is the decimal number of an IPv4/IPv6 address string ("" = 0).
+func numOfIP(s string) string {
+	if s == "" {
+		return "0"
+	}
+	a, err := netip.ParseAddr(s)
+	if err != nil {
+		return "0"
+	}
+	return new(big.Int).SetBytes(a.AsSlice()).String()
+}
 type poolSpec struct {
 	ipipMode, vxlanMode int
 	nat, lb            bool
@@ -101,8 +196,8 @@ type blockSpec struct {
 // ground truth: what the datastore (and the manager's other inputs) say now.
 type truth struct {
 	nodes    map[int]nodeSpec
-	pools    map[[2]uint32]poolSpec
-	blocks   map[[2]uint32]blockSpec
+	pools    map[ck]poolSpec
+	blocks   map[ck]blockSpec
 	weps     map[[2]int][]uint32
 	vteps    map[int][2]uint32
 	hostmeta map[int]uint32
@@ -110,7 +205,7 @@ type truth struct {
 }
 
 func newTruth() *truth {
-	return &truth{nodes: map[int]nodeSpec{}, pools: map[[2]uint32]poolSpec{}, blocks: map[[2]uint32]blockSpec{},
+	return &truth{nodes: map[int]nodeSpec{}, pools: map[ck]poolSpec{}, blocks: map[ck]blockSpec{},
 		weps: map[[2]int][]uint32{}, vteps: map[int][2]uint32{}, hostmeta: map[int]uint32{}}
 }
 
@@ -135,9 +230,12 @@ type state struct {
 	v4VtepDropped bool
 }
 
-func overlaps(a, b [2]uint32) bool {
-	l := min(a[1], b[1])
-	return maskOf(a[0], int(l)) == maskOf(b[0], int(l))
+func overlaps(a, b ck) bool {
+	if a.v6 != b.v6 {
+		return false
+	}
+	l := min(a.l, b.l)
+	return a.masked(l).Cmp(b.masked(l)) == 0
 }
 
 func (s *state) checkValid() {
@@ -192,6 +290,9 @@ func addrNum(a ip.Addr) uint32 {
 }
 func cidrNum(s string) string {
 	parts := strings.Split(s, "/")
+	if strings.Contains(parts[0], ":") {
+		return fmt.Sprintf("v%s/%s", numOfIP(parts[0]), parts[1])
+	}
 	return fmt.Sprintf("%d/%s", ipNum(parts[0]), parts[1])
 }
 func mustNet(a uint32, l int) cnet.IPNet {
@@ -255,27 +356,21 @@ func showUpdate(u *proto.RouteUpdate) string {
 	if u.TunnelType != nil {
 		t = b01(u.TunnelType.Ipip) + b01(u.TunnelType.Vxlan) + b01(u.TunnelType.Wireguard)
 	}
-	return fmt.Sprintf("U:%s:%d:%d:%s:%d:%s%s%s%s:%s", cidrNum(u.Dst), int(u.Types), int(u.IpPoolType), nodeNum(u.DstNodeName),
-		ipNum(u.DstNodeIp), b01(u.SameSubnet), b01(u.NatOutgoing), b01(u.LocalWorkload), b01(u.Borrowed), t)
+	return fmt.Sprintf("U:%s:%d:%d:%s:%s:%s%s%s%s:%s", cidrNum(u.Dst), int(u.Types), int(u.IpPoolType), nodeNum(u.DstNodeName),
+		numOfIP(u.DstNodeIp), b01(u.SameSubnet), b01(u.NatOutgoing), b01(u.LocalWorkload), b01(u.Borrowed), t)
 }
 
-func cidrKey(s string) (uint32, int) {
+func cidrKey(s string) ck {
 	parts := strings.Split(s, "/")
 	l, _ := strconv.Atoi(parts[1])
-	return ipNum(parts[0]), l
+	return ck{strings.Contains(parts[0], ":"), numOfIP(parts[0]), l}
 }
 
-func cidrLess(a, b string) bool {
-	aa, al := cidrKey(a)
-	ba, bl := cidrKey(b)
-	if aa != ba {
-		return aa < ba
-	}
-	return al < bl
-}
+// cidrLess: IPv4 before IPv6, then by address, then by length (the model driver's order).
+func cidrLess(a, b string) bool { return ckLess(cidrKey(a), cidrKey(b)) }
 
-// drain collects the events of the last flush (IPv4 only: the model is an IPv4 slice), sorted by
-// destination, forwards them to the manager, and returns the canonical line.
+// drain collects the events of the last flush (both families), sorted by destination, forwards
+// them to the manager (an IPv4 manager: it skips the IPv6 ones itself), and returns the canonical line.
 func (s *state) drain() string {
 	var evs []event
 	for _, e := range s.cb.evs {
@@ -283,9 +378,7 @@ func (s *state) drain() string {
 		if e.upd != nil {
 			d = e.upd.Dst
 		}
-		if strings.Contains(d, ":") {
-			continue
-		}
+		_ = d
 		evs = append(evs, e)
 	}
 	s.cb.evs = nil
@@ -419,22 +512,29 @@ func apply(s *state, op string) string {
 		return "ok"
 	case "node":
 		n := atoi(w[1])
-		sp := nodeSpec{atou(w[2]), atou(w[3]), atou(w[4]), atou(w[5]), atou(w[6])}
+		sp := nodeSpec{addr: atou(w[2]), plen: atou(w[3]), ipip: atou(w[4]), vxlan: atou(w[5]), wg: atou(w[6]),
+			addr6: w[7], plen6: atoi(w[8]), vxlan6: w[9], wg6: w[10]}
 		node := &internalapi.Node{}
 		node.Name = nodeName(n)
 		bgp := &internalapi.NodeBGPSpec{}
 		if sp.addr != 0 {
 			bgp.IPv4Address = fmt.Sprintf("%s/%d", ipStr(sp.addr), sp.plen)
-		} else {
-			bgp.IPv6Address = fmt.Sprintf("fd00::%x/64", n+1)
+		}
+		if sp.addr6 != "0" {
+			bgp.IPv6Address = fmt.Sprintf("%s/%d", dec6(sp.addr6), sp.plen6)
 		}
 		bgp.IPv4IPIPTunnelAddr = ipOrEmpty(sp.ipip)
 		node.Spec.BGP = bgp
 		node.Spec.IPv4VXLANTunnelAddr = ipOrEmpty(sp.vxlan)
-		if sp.wg != 0 {
-			node.Spec.Wireguard = &internalapi.NodeWireguardSpec{InterfaceIPv4Address: ipStr(sp.wg)}
+		node.Spec.IPv6VXLANTunnelAddr = dec6OrEmpty(sp.vxlan6)
+		if sp.wg != 0 || sp.wg6 != "0" {
+			node.Spec.Wireguard = &internalapi.NodeWireguardSpec{InterfaceIPv4Address: ipOrEmpty(sp.wg), InterfaceIPv6Address: dec6OrEmpty(sp.wg6)}
 		}
-		s.tr.nodes[n] = sp
+		if sp.addr == 0 && sp.addr6 == "0" {
+			delete(s.tr.nodes, n) // a Node without any address is no node for the resolver
+		} else {
+			s.tr.nodes[n] = sp
+		}
 		s.res.OnResourceUpdate(api.Update{KVPair: model.KVPair{
 			Key: model.ResourceKey{Kind: internalapi.KindNode, Name: nodeName(n)}, Value: node}})
 		return s.drain()
@@ -445,33 +545,34 @@ func apply(s *state, op string) string {
 			Key: model.ResourceKey{Kind: internalapi.KindNode, Name: nodeName(n)}}})
 		return s.drain()
 	case "pool":
-		a, l := atou(w[1]), atoi(w[2])
+		k := parseCk(w[1], w[2])
 		sp := poolSpec{atoi(w[3]), atoi(w[4]), w[5] == "1", w[6] == "1"}
-		cidr := mustNet(a, l)
-		p := &model.IPPool{CIDR: cidr, IPIPMode: modeOf(sp.ipipMode), VXLANMode: modeOf(sp.vxlanMode), Masquerade: sp.nat, IPAM: true}
+		p := &model.IPPool{CIDR: k.net(), IPIPMode: modeOf(sp.ipipMode), VXLANMode: modeOf(sp.vxlanMode), Masquerade: sp.nat, IPAM: true}
 		if sp.lb {
 			p.AllowedUses = []apiv3.IPPoolAllowedUse{apiv3.IPPoolAllowedUseLoadBalancer}
 		}
-		s.tr.pools[[2]uint32{a, uint32(l)}] = sp
+		s.tr.pools[k] = sp
 		s.checkValid()
-		s.res.OnPoolUpdate(api.Update{KVPair: model.KVPair{Key: model.IPPoolKey{CIDR: mustPrefix(a, l)}, Value: p}})
+		s.res.OnPoolUpdate(api.Update{KVPair: model.KVPair{Key: model.IPPoolKey{CIDR: k.prefix()}, Value: p}})
 		return s.drain()
 	case "pooldel":
-		a, l := atou(w[1]), atoi(w[2])
-		delete(s.tr.pools, [2]uint32{a, uint32(l)})
-		s.res.OnPoolUpdate(api.Update{KVPair: model.KVPair{Key: model.IPPoolKey{CIDR: mustPrefix(a, l)}}})
+		k := parseCk(w[1], w[2])
+		delete(s.tr.pools, k)
+		s.res.OnPoolUpdate(api.Update{KVPair: model.KVPair{Key: model.IPPoolKey{CIDR: k.prefix()}}})
 		return s.drain()
 	case "block":
-		a, l := atou(w[1]), atoi(w[2])
-		cidr := mustNet(a, l)
-		b := &model.AllocationBlock{CIDR: cidr}
+		k := parseCk(w[1], w[2])
+		b := &model.AllocationBlock{CIDR: k.net()}
 		sp := blockSpec{aff: -1}
 		if w[3] != "-" {
 			sp.aff = atoi(w[3])
 			aff := "host:" + nodeName(sp.aff)
 			b.Affinity = &aff
 		}
-		size := 1 << uint(32-l)
+		if k.width()-k.l > 12 {
+			panic("block too large for the harness: " + op)
+		}
+		size := 1 << uint(k.width()-k.l)
 		b.Allocations = make([]*int, size)
 		if w[4] != "-" {
 			for _, p := range strings.Split(w[4], ",") {
@@ -492,14 +593,14 @@ func apply(s *state, op string) string {
 				b.Allocations[ord] = &idx
 			}
 		}
-		s.tr.blocks[[2]uint32{a, uint32(l)}] = sp
+		s.tr.blocks[k] = sp
 		s.checkValid()
-		s.res.OnBlockUpdate(api.Update{KVPair: model.KVPair{Key: model.BlockKey{CIDR: mustPrefix(a, l)}, Value: b}})
+		s.res.OnBlockUpdate(api.Update{KVPair: model.KVPair{Key: model.BlockKey{CIDR: k.prefix()}, Value: b}})
 		return s.drain()
 	case "blockdel":
-		a, l := atou(w[1]), atoi(w[2])
-		delete(s.tr.blocks, [2]uint32{a, uint32(l)})
-		s.res.OnBlockUpdate(api.Update{KVPair: model.KVPair{Key: model.BlockKey{CIDR: mustPrefix(a, l)}}})
+		k := parseCk(w[1], w[2])
+		delete(s.tr.blocks, k)
+		s.res.OnBlockUpdate(api.Update{KVPair: model.KVPair{Key: model.BlockKey{CIDR: k.prefix()}}})
 		return s.drain()
 	case "wep":
 		host, id := atoi(w[1]), atoi(w[2])
@@ -580,17 +681,12 @@ func sortedInts[M ~map[int]V, V any](m M) []int {
 	return ks
 }
 
-func sortedCidrs[V any](m map[[2]uint32]V) [][2]uint32 {
-	var ks [][2]uint32
+func sortedCidrs[V any](m map[ck]V) []ck {
+	var ks []ck
 	for k := range m {
 		ks = append(ks, k)
 	}
-	sort.Slice(ks, func(i, j int) bool {
-		if ks[i][0] != ks[j][0] {
-			return ks[i][0] < ks[j][0]
-		}
-		return ks[i][1] < ks[j][1]
-	})
+	sort.Slice(ks, func(i, j int) bool { return ckLess(ks[i], ks[j]) })
 	return ks
 }
 
@@ -602,13 +698,13 @@ func (s *state) canonicalOps(rev bool) []string {
 	var g []string
 	for _, n := range sortedInts(t.nodes) {
 		sp := t.nodes[n]
-		g = append(g, fmt.Sprintf("node %d %d %d %d %d %d", n, sp.addr, sp.plen, sp.ipip, sp.vxlan, sp.wg))
+		g = append(g, fmt.Sprintf("node %d %d %d %d %d %d %s %d %s %s", n, sp.addr, sp.plen, sp.ipip, sp.vxlan, sp.wg, sp.addr6, sp.plen6, sp.vxlan6, sp.wg6))
 	}
 	groups = append(groups, g)
 	g = nil
 	for _, k := range sortedCidrs(t.pools) {
 		sp := t.pools[k]
-		g = append(g, fmt.Sprintf("pool %d %d %d %d %s %s", k[0], k[1], sp.ipipMode, sp.vxlanMode, b01(sp.nat), b01(sp.lb)))
+		g = append(g, fmt.Sprintf("pool %s %d %d %d %s %s", k.addrTok(), k.l, sp.ipipMode, sp.vxlanMode, b01(sp.nat), b01(sp.lb)))
 	}
 	groups = append(groups, g)
 	g = nil
@@ -630,7 +726,7 @@ func (s *state) canonicalOps(rev bool) []string {
 		if len(al) > 0 {
 			as = strings.Join(al, ",")
 		}
-		g = append(g, fmt.Sprintf("block %d %d %s %s", k[0], k[1], aff, as))
+		g = append(g, fmt.Sprintf("block %s %d %s %s", k.addrTok(), k.l, aff, as))
 	}
 	groups = append(groups, g)
 	g = nil
@@ -699,6 +795,7 @@ func oracleOrder(h *rt.H, s *state, ops []string) {
 	}
 	apply(s, "apply")
 	got := s.kinds()
+	gotSent := s.sentByTok()
 	for _, rev := range []bool{false, true} {
 		f := &state{}
 		apply(f, s.newLine)
@@ -707,6 +804,26 @@ func oracleOrder(h *rt.H, s *state, ops []string) {
 		}
 		apply(f, "apply")
 		want := f.kinds()
+		wantSent := f.sentByTok()
+		// the RouteUpdate the dataplane holds for a property destination (either family) must be the
+		// one a fresh resolver computes from the final state: it is what decides the route kind
+		// (pool type, owner, owner address, same-subnet flag, route types)
+		var rdiffs []string
+		for _, d := range s.propertyDsts() {
+			if gotSent[d] != wantSent[d] {
+				rdiffs = append(rdiffs, fmt.Sprintf("%s: history=%q fresh=%q", d, gotSent[d], wantSent[d]))
+			}
+		}
+		if len(rdiffs) > 0 {
+			sort.Strings(rdiffs)
+			sig := "order-dep-route"
+			if s.localV4Flapped(ops) {
+				sig = "order-dep-local-v4cidr-zero"
+			}
+			h.OracleFail(sig, "emitted route after the history differs from a fresh resolver fed the final state: "+strings.Join(rdiffs, "; "),
+				map[string]any{"ops": ops, "fresh_order_reversed": rev, "fresh_ops": s.canonicalOps(rev)})
+			return
+		}
 		var diffs []string
 		// the property speaks about: blocks with an owner (remote: direct/tunnel route, local:
 		// blackhole) and borrowed addresses recorded in a block for a remote owner.
@@ -730,17 +847,26 @@ func oracleOrder(h *rt.H, s *state, ops []string) {
 	}
 }
 
+// sentByTok: destination token -> canonical text of the RouteUpdate the dataplane last received.
+func (s *state) sentByTok() map[string]string {
+	out := map[string]string{}
+	for d, u := range s.sent {
+		out[cidrNum(d)] = showUpdate(u)
+	}
+	return out
+}
+
 func (s *state) propertyDsts() []string {
 	var out []string
 	for _, bk := range sortedCidrs(s.tr.blocks) {
 		b := s.tr.blocks[bk]
 		if b.aff >= 0 {
-			out = append(out, fmt.Sprintf("%d/%d", bk[0], bk[1]))
+			out = append(out, bk.tok())
 		}
-		size := 1 << (32 - bk[1])
+		size := 1 << (bk.width() - bk.l)
 		for _, a := range b.allocs {
-			if a[1] >= 0 && a[1] != b.aff && a[1] != s.me && a[0] < size && bk[1] != 32 {
-				out = append(out, fmt.Sprintf("%d/32", bk[0]+uint32(a[0])))
+			if a[1] >= 0 && a[1] != b.aff && a[1] != s.me && a[0] < size && bk.l != bk.width() {
+				out = append(out, bk.nth(a[0]).tok())
 			}
 		}
 	}
@@ -752,7 +878,7 @@ func (s *state) propertyDsts() []string {
 func (s *state) localV4Flapped(ops []string) bool {
 	for _, op := range ops {
 		w := strings.Fields(op)
-		if w[0] == "node" && atoi(w[1]) == s.me && atou(w[2]) == 0 {
+		if w[0] == "node" && atoi(w[1]) == s.me && atou(w[2]) == 0 && w[7] != "0" {
 			return true
 		}
 	}
@@ -785,19 +911,19 @@ func oracleKinds(h *rt.H, s *state, ops []string) {
 	classTunnel := map[int]int{1: 7, 2: 4, 3: 6}[s.pt]
 	for _, bk := range sortedCidrs(t.blocks) {
 		b := t.blocks[bk]
-		if b.aff < 0 || b.aff == s.me || bk[1] == 32 {
-			continue
+		if bk.v6 || b.aff < 0 || b.aff == s.me || bk.l == 32 {
+			continue // the managers of the harness are IPv4 managers
 		}
 		// exactly one pool covers the block, no other block overlaps it, nothing else lives at its CIDR
 		var pools []poolSpec
 		for pk, p := range t.pools {
-			if pk[1] <= bk[1] && maskOf(bk[0], int(pk[1])) == pk[0] {
+			if !pk.v6 && pk.l <= bk.l && overlaps(pk, bk) {
 				pools = append(pools, p)
 			}
 		}
 		overlap := false
 		for ok := range t.blocks {
-			if ok != bk && (maskOf(bk[0], int(min(ok[1], bk[1]))) == maskOf(ok[0], int(min(ok[1], bk[1])))) {
+			if ok != bk && overlaps(ok, bk) {
 				overlap = true
 			}
 		}
@@ -821,7 +947,7 @@ func oracleKinds(h *rt.H, s *state, ops []string) {
 		cross := p.ipipMode == 2 || p.vxlanMode == 2
 		same := maskOf(owner.addr, int(me.plen)) == maskOf(me.addr, int(me.plen))
 		wantDirect := s.pt == 1 || (cross && same)
-		dst := fmt.Sprintf("%d/%d", bk[0], bk[1])
+		dst := bk.tok()
 		got := byDst[dst]
 		direct := fmt.Sprintf("%d/1|ne|%d", classDirect, owner.addr)
 		hasDirect, hasTunnel := false, false
@@ -910,6 +1036,39 @@ var blockCidrs = [][2]uint32{{ip4(192, 168, 0, 0), 26}, {ip4(192, 168, 0, 64), 2
 	{ip4(192, 168, 1, 64), 26}, {ip4(192, 168, 2, 0), 30}, {ip4(192, 168, 2, 5), 32}, {ip4(192, 168, 0, 3), 32},
 	{ip4(172, 16, 5, 0), 28}, {ip4(192, 168, 0, 0), 28}}
 
+// IPv6 plans: node addresses in fd00:a:<sub>::/64, a VXLAN pool fd00:100::/48 with /122 blocks
+var validPools6 = []ck{c6("fd00:100::", 48), c6("fd00:101::", 64)}
+var validBlocks6 = []ck{c6("fd00:100::", 122), c6("fd00:100::40", 122), c6("fd00:101::", 126), c6("fd00:100::80", 128)}
+var poolCidrs6 = []ck{c6("fd00:100::", 48), c6("fd00:100::", 64), c6("fd00:101::", 64), c6("fd00::", 16)}
+var blockCidrs6 = []ck{c6("fd00:100::", 122), c6("fd00:100::40", 122), c6("fd00:101::", 126), c6("fd00:100::80", 128), c6("fd00:100::", 124)}
+
+// nodeAddr6: "0" (no IPv6) or an address in one of two /64s (occasionally another prefix length).
+func (g *gen) nodeAddr6(n int) (string, int) {
+	h := g.h
+	if h.Chance(0.35) {
+		return "0", 0
+	}
+	sub := n % 2
+	if h.Chance(0.2) {
+		sub = h.Intn(3)
+	}
+	l := 64
+	if h.Chance(0.15) {
+		l = rt.Pick(h, []int{48, 96, 128, 16})
+	}
+	return c6(fmt.Sprintf("fd00:a:%x::%x", sub, 16+n), 128).a, l
+}
+
+func (g *gen) tunnelAddr6(n int) string {
+	h := g.h
+	if h.Chance(0.5) {
+		return "0"
+	}
+	b := rt.Pick(h, blockCidrs6)
+	size := 1 << (128 - b.l)
+	return b.nth(h.Intn(min(size, 4))).a
+}
+
 func (g *gen) someNode() int {
 	if g.h.Chance(0.3) {
 		return g.me
@@ -934,8 +1093,12 @@ func (g *gen) nodeOp() string {
 		return fmt.Sprintf("nodedel %d", n)
 	}
 	a, l := g.nodeAddr(n)
+	a6, l6 := g.nodeAddr6(n)
 	if h.Chance(0.08) {
 		a, l = 0, 0 // v6-only node
+		if a6 == "0" {
+			a6, l6 = c6(fmt.Sprintf("fd00:a:%x::%x", n%2, 16+n), 128).a, 64
+		}
 	}
 	var ipip, vx, wg uint32
 	if g.pt == 3 || h.Chance(0.2) {
@@ -947,17 +1110,32 @@ func (g *gen) nodeOp() string {
 	if h.Chance(0.1) {
 		wg = g.tunnelAddr(n)
 	}
-	return fmt.Sprintf("node %d %d %d %d %d %d", n, a, l, ipip, vx, wg)
+	vx6, wg6 := "0", "0"
+	if a6 != "0" && h.Chance(0.4) {
+		vx6 = g.tunnelAddr6(n)
+	}
+	if a6 != "0" && h.Chance(0.1) {
+		wg6 = g.tunnelAddr6(n)
+	}
+	return fmt.Sprintf("node %d %d %d %d %d %d %s %d %s %s", n, a, l, ipip, vx, wg, a6, l6, vx6, wg6)
 }
 
 func (g *gen) poolOp() string {
 	h := g.h
-	c := rt.Pick(h, validPools)
+	c4k := rt.Pick(h, validPools)
 	if g.messy {
-		c = rt.Pick(h, poolCidrs)
+		c4k = rt.Pick(h, poolCidrs)
+	}
+	c := c4(c4k[0], int(c4k[1]))
+	v6 := h.Chance(0.3)
+	if v6 {
+		c = rt.Pick(h, validPools6)
+		if g.messy {
+			c = rt.Pick(h, poolCidrs6)
+		}
 	}
 	if h.Chance(0.15) {
-		return fmt.Sprintf("pooldel %d %d", c[0], c[1])
+		return fmt.Sprintf("pooldel %s %d", c.addrTok(), c.l)
 	}
 	im, vm := 0, 0
 	mode := rt.Pick(h, []int{1, 2, 2})
@@ -978,23 +1156,33 @@ func (g *gen) poolOp() string {
 			im, vm = mode, rt.Pick(h, []int{1, 2})
 		}
 	}
-	return fmt.Sprintf("pool %d %d %d %d %s %s", c[0], c[1], im, vm, b01(h.Chance(0.3)), b01(h.Chance(0.07)))
+	if v6 && h.Chance(0.8) {
+		im, vm = 0, mode // IPv6 pools are VXLAN (or unencapsulated) pools
+	}
+	return fmt.Sprintf("pool %s %d %d %d %s %s", c.addrTok(), c.l, im, vm, b01(h.Chance(0.3)), b01(h.Chance(0.07)))
 }
 
 func (g *gen) blockOp() string {
 	h := g.h
-	c := rt.Pick(h, validBlocks)
+	c4k := rt.Pick(h, validBlocks)
 	if g.messy {
-		c = rt.Pick(h, blockCidrs)
+		c4k = rt.Pick(h, blockCidrs)
+	}
+	c := c4(c4k[0], int(c4k[1]))
+	if h.Chance(0.3) {
+		c = rt.Pick(h, validBlocks6)
+		if g.messy {
+			c = rt.Pick(h, blockCidrs6)
+		}
 	}
 	if h.Chance(0.15) {
-		return fmt.Sprintf("blockdel %d %d", c[0], c[1])
+		return fmt.Sprintf("blockdel %s %d", c.addrTok(), c.l)
 	}
 	aff := "-"
 	if h.Chance(0.88) {
 		aff = strconv.Itoa(g.someNode())
 	}
-	size := 1 << (32 - c[1])
+	size := 1 << (c.width() - c.l)
 	var al []string
 	used := map[int]bool{}
 	for i := 0; i < h.Intn(4); i++ {
@@ -1013,7 +1201,7 @@ func (g *gen) blockOp() string {
 	if len(al) > 0 {
 		as = strings.Join(al, ",")
 	}
-	return fmt.Sprintf("block %d %d %s %s", c[0], c[1], aff, as)
+	return fmt.Sprintf("block %s %d %s %s", c.addrTok(), c.l, aff, as)
 }
 
 func (g *gen) wepOp() string {
@@ -1103,7 +1291,7 @@ func main() {
 	defer h.Close()
 	h.Rule = "case = one resolver (local node me) + one manager (no-encap|vxlan|ipip) and 6..65 ops over " +
 		"{node,nodedel,pool,pooldel,block,blockdel,wep,vtep,vtepdel,hostmeta,hostmetadel,parent,apply,sent} drawn from small " +
-		"colliding address plans (2 host subnets, 8 pool CIDRs, 9 block CIDRs incl. /32 and /30, tunnel IPs inside blocks); " +
+		"colliding dual-stack address plans (2 IPv4 + 2 IPv6 host subnets, 8+4 pool CIDRs, 9+5 block CIDRs incl. /32, /30, /122, /128, tunnel IPs inside blocks; single-stack, dual-stack and v6-only nodes); " +
 		"non-trivial = the final route table holds at least one direct or tunnel route and the case saw a same-subnet route"
 	run := func(ops []string, tag string) {
 		h.Case(tag)
